@@ -143,6 +143,9 @@ def make_jobs(ctx):
             info=dict(layer="bounded corroboration on the real binary under AddressSanitizer/UBSan (also the replay vehicle)"))
     b.static_fn = asan_matrix
     jobs.append(b)
+    # totality on valid code that is unreachable: instructions are skipped without looking at the (possibly empty) operand stack
+    from ..eexpr import expr_jobs
+    jobs += expr_jobs(ctx, ["dispatch", "dead", "ignored"])
     return jobs
 
 
